@@ -41,7 +41,8 @@ from __future__ import annotations
 
 import z3
 
-from .values import (BoundMethod, BuiltinV, DictObj, HeapObj, ListObj, PyObj, Ref, SV, StrS, TBool, TDict, TInt, TList, TNd, TStr, TVal,
+from .values import T as _T
+from .values import (BoundMethod, BuiltinV, DictObj, HeapObj, ListObj, PyObj, Ref, SV, StrS, TBool, TDict, TInt, TList, TNd, TOpt, TStr, TVal,
                      Unsupported, ValS, declare_ghost, str_lit)
 
 MOD = "gemseo.algos._hdf_database"
@@ -278,7 +279,7 @@ class HdfModels:
 
     # ------------------------------------------------------------------ attribute access / methods
     def pyobj_attr(self, ex, ref, o, attr, lineno):
-        if _kind(o) is not None and attr in ("require_group", "create_dataset", "items", "file"):
+        if _kind(o) is not None and attr in ("require_group", "create_dataset", "items", "file", "get", "attrs"):
             return BoundMethod(ref, None, "h5:" + attr)
         return NotImplemented
 
@@ -609,3 +610,190 @@ class HdfModels:
         st.assume(z3.ForAll([k], z3.Implies(mem[k], z3.And(0 <= wit[k], wit[k] < seq.n, key_at(wit[k]) == k)), patterns=[mem[k]]))
         o.pair_wit = wit
         return st.alloc(o)
+
+
+# =============================================================================== HDF5 cache file (gemseo.caches._hdf5_file_singleton)
+# An *entry group* of the cache file (root/<index>/<inputs|outputs|jacobian>) is a map from names to datasets; a dataset has a
+# content (opaque value) and attributes (name -> value).  Group kind "e": fields ds (name -> content), attrs (name -> attributes).
+#   A16 create_dataset returns a handle of the new dataset; dataset.attrs.create(k, v) sets attribute k; dataset.attrs.get(k) is the
+#       attribute or None; group.items() enumerates (name, dataset handle) of every dataset of the group, each once
+#       (validated by tools/validate_h5py_model.py)
+# SciPy sparse arrays (ASSUMED contract on scipy, validated natively by the same script): a sparse value v has a format tag
+# sp_fmt(v) and, for the compressed formats, the components data/indices/indptr/shape; mat(v) is the matrix it denotes.
+#   S1 v.tocsr() is a sparse array in CSR format denoting the same matrix (and is v itself when v is already CSR)
+#   S2 a CSR array denotes csr_den(data, indices, indptr, shape) - the matrix given by its row-compressed triple
+#   S3 csr_array((data, indices, indptr), shape) is the CSR array with exactly these components
+#   S4 hasattr(v, "indptr") depends on the format only, and holds for CSR (also for CSC and BSR, which is why it does NOT identify CSR)
+CMOD = "gemseo.caches._hdf5_file_singleton"
+ATTRS = TDict(TStr, TVal)
+EDS = TDict(TStr, TVal, ordered=True)
+EAT = TDict(TStr, ATTRS)
+
+is_sparse = z3.Function("is_sparse", ValS, z3.BoolSort())  # isinstance(v, sparse_classes)
+sp_fmt = z3.Function("sp_fmt", ValS, z3.IntSort())
+sp_data, sp_indices, sp_indptr, sp_shape = (z3.Function(f"sp_{n}", ValS, ValS) for n in ("data", "indices", "indptr", "shape"))
+sp_tocsr = z3.Function("sp_tocsr", ValS, ValS)
+sp_mat = z3.Function("sp_mat", ValS, ValS)  # the matrix denoted by a sparse array (format independent)
+csr_den = z3.Function("csr_den", ValS, ValS, ValS, ValS, ValS)  # the matrix denoted by a CSR triple + shape
+csr_make = z3.Function("csr_make", ValS, ValS, ValS, ValS, ValS)  # csr_array((data, indices, indptr), shape)
+fmt_has_indptr = z3.Function("fmt_has_indptr", z3.IntSort(), z3.BoolSort())
+FMT_CSR = z3.IntVal(0)
+val_true = z3.Function("val_of_bool", z3.BoolSort(), ValS)(z3.BoolVal(True))
+val_truthy = z3.Function("val_truthy", ValS, z3.BoolSort())  # bool(v) of an attribute value
+
+
+def sparse_facts(v):
+    """Ground instances of S1, S2, S4 for the sparse value v (quantifier free, so that a counter-model is a genuine one)."""
+    t = sp_tocsr(v)
+    den = lambda x: csr_den(sp_data(x), sp_indices(x), sp_indptr(x), sp_shape(x))  # noqa: E731
+    return [z3.Implies(is_sparse(v), z3.And(is_sparse(t), sp_fmt(t) == FMT_CSR, sp_mat(t) == sp_mat(v), sp_mat(t) == den(t))),
+            z3.Implies(z3.And(is_sparse(v), sp_fmt(v) == FMT_CSR), z3.And(t == v, sp_mat(v) == den(v))),
+            fmt_has_indptr(FMT_CSR), val_truthy(val_true)]
+
+
+def csr_make_facts(d, i, p, s):
+    r = csr_make(d, i, p, s)
+    return [is_sparse(r), sp_fmt(r) == FMT_CSR, sp_data(r) == d, sp_indices(r) == i, sp_indptr(r) == p, sp_shape(r) == s, sp_mat(r) == csr_den(d, i, p, s)]
+
+
+class _TDsetHandle(_T):
+    """Parameter type: a handle of an existing dataset of some entry group (fresh: a fresh group and a member name)."""
+
+    name = "H5DatasetHandle"
+
+    def fresh(self, st, hint):
+        from .values import TObj
+
+        grp = TObj(GROUP, schema_key=GROUP + "#e").fresh(st, hint + ".group")
+        nm = st.fresh_const(hint + ".name", StrS)
+        st.assume(st.heap[st.heap[grp.id].fields["ds"].id].member[nm])
+        return st.alloc(H5View("eds", grp, nm))
+
+    def sort(self):
+        raise Unsupported("a dataset handle cannot be stored in a symbolic container")
+
+
+TDsetHandle = _TDsetHandle()
+
+
+def _in_cmod(ex):
+    return ex.frame.module.name == CMOD
+
+
+def _val_of(ex, v):
+    """Opaque content of a value handed to h5py (arrays, flags, shapes)."""
+    from .gmodels import to_val
+
+    if isinstance(v, SV) and isinstance(v.ty, TOpt):
+        return v.ty.dt.get(v.term)
+    t = to_val(ex, v)
+    if t is None:
+        raise Unsupported(f"h5py model: cannot store {v!r}")
+    return t
+
+
+class HdfCacheModels:
+    """Hooks for the cache-file layout (registered with HdfModels; gated on kind 'e' groups, their handles, or module CMOD)."""
+
+    def _grp(self, ex, view):
+        o = ex.st.heap[view.parent.id]
+        return _dict(ex, o.fields["ds"]), _dict(ex, o.fields["attrs"])
+
+    def pyobj_attr(self, ex, ref, o, attr, lineno):
+        return NotImplemented
+
+    def ref_attr(self, ex, ref, o, attr, lineno):
+        if isinstance(o, H5View) and o.kind == "eds" and attr == "attrs":
+            return ex.st.alloc(H5View("eattr", o.parent, o.name))
+        return NotImplemented
+
+    def value_attr(self, ex, obj, attr, lineno):
+        if _in_cmod(ex) and isinstance(obj, SV) and obj.ty == TVal and attr in ("data", "indices", "indptr", "shape"):
+            f = {"data": sp_data, "indices": sp_indices, "indptr": sp_indptr, "shape": sp_shape}[attr]
+            ex.assumed.add("scipy sparse arrays: abstract (format tag, data, indices, indptr, shape); S1-S4 (pyvc/plug_hdf.py)")
+            return SV(f(obj.term), TVal)
+        return NotImplemented
+
+    def call_method(self, ex, recv, name, args, kwargs, lineno):
+        st = ex.st
+        if _in_cmod(ex) and isinstance(recv, SV) and recv.ty == TVal and name == "tocsr" and not args:
+            for f in sparse_facts(recv.term):
+                st.assume(f)
+            ex.assumed.add("S1: v.tocsr() is a CSR array denoting the same matrix (v itself if v is CSR); S2: a CSR array denotes the matrix of its triple")
+            return SV(sp_tocsr(recv.term), TVal)
+        if not isinstance(recv, Ref):
+            return NotImplemented
+        o = st.heap[recv.id]
+        if isinstance(o, H5View) and o.kind == "eattr":
+            ds, attrs = self._grp(ex, o)
+            ex.assumed.add("A16: dataset.attrs.create(k, v) sets attribute k; attrs.get(k) is the attribute or None")
+            cur = attrs.vals[o.name]
+            if name == "create":
+                kt = _str_term(ex, args[0])
+                vt = _val_of(ex, args[1] if len(args) > 1 else kwargs["data"])
+                mem, vals, n = (ATTRS.acc(i)(cur) for i in range(3))
+                new = ATTRS.dt.mk(z3.Store(mem, kt, z3.BoolVal(True)), z3.Store(vals, kt, vt), z3.If(mem[kt], n, n + 1))
+                attrs.vals = z3.Store(attrs.vals, o.name, new)
+                ex.writeback(attrs)
+                return None
+            if name == "get" and len(args) == 1:
+                kt = _str_term(ex, args[0])
+                ot = TOpt(TVal)
+                return SV(z3.If(ATTRS.acc(0)(cur)[kt], ot.dt.some(ATTRS.acc(1)(cur)[kt]), ot.dt.none), ot)
+        if _kind(o) == "e" and name in ("h5:create_dataset", "h5:items"):
+            ds, attrs = _dict(ex, o.fields["ds"]), _dict(ex, o.fields["attrs"])
+            if name == "h5:create_dataset":
+                ex.assumed.add("A4/A16: create_dataset(name, data=d) adds the dataset holding d (no attribute) and returns its handle; ValueError if the name exists")
+                nt = _str_term(ex, args[0])
+                data = kwargs.get("data", args[1] if len(args) > 1 else None)
+                if st.decide(ds.member[nt]):
+                    raise _raise("ValueError", lineno)
+                _dict_set(ds, ex, nt, _val_of(ex, data))
+                e = DictObj.empty(st, TStr, TVal)
+                _dict_set(attrs, ex, nt, ATTRS.dt.mk(e.member, e.vals, e.n))
+                return st.alloc(H5View("eds", recv, nt))
+            from .engine import IterV
+
+            ds.ensure_order(st)
+            keys = ds.keys
+            it = IterV(ds.n, lambda i: (SV(keys[i], TStr), st.alloc(H5View("eds", recv, keys[i]))))
+            it.keys, it.pos = ds.keys, ds.pos
+            return it
+        return NotImplemented
+
+    def truth(self, ex, v):
+        if isinstance(v, SV) and isinstance(v.ty, TOpt) and v.ty.inner == TVal and _in_cmod(ex):
+            return z3.And(z3.Not(v.ty.is_none(v.term)), val_truthy(v.ty.dt.get(v.term)))
+        return NotImplemented
+
+    def call_builtin(self, ex, name, args, kwargs, lineno, node=None):
+        st = ex.st
+        if not _in_cmod(ex):
+            return NotImplemented
+        if name == "hasattr" and len(args) == 2 and args[1] == "indptr" and isinstance(args[0], SV) and args[0].ty == TVal:
+            ex.assumed.add("S4: hasattr(v, 'indptr') depends on the sparse format only and holds for CSR (and CSC, BSR)")
+            st.assume(fmt_has_indptr(FMT_CSR))
+            return SV(fmt_has_indptr(sp_fmt(args[0].term)), TBool)
+        if name in ("scipy.sparse.csr_array", "csr_array") and len(args) == 2 and isinstance(args[0], tuple) and len(args[0]) == 3:
+            parts = []
+            for x in (*args[0], args[1]):
+                if isinstance(x, Ref) and isinstance(st.heap[x.id], H5View) and st.heap[x.id].kind == "eds":
+                    h = st.heap[x.id]
+                    parts.append(_dict(ex, st.heap[h.parent.id].fields["ds"]).vals[h.name])
+                elif isinstance(x, SV) and isinstance(x.ty, TOpt):
+                    if st.decide(x.ty.is_none(x.term)):
+                        raise _raise("TypeError", lineno)  # csr_array((data, None, ..)): invalid input
+                    parts.append(x.ty.dt.get(x.term))
+                else:
+                    parts.append(_val_of(ex, x))
+            for f in csr_make_facts(*parts):
+                st.assume(f)
+            ex.assumed.add("S3: csr_array((data, indices, indptr), shape) is the CSR array with exactly these components")
+            return SV(csr_make(*parts), TVal)
+        return NotImplemented
+
+    def call_repo_model(self, ex, fi, args, kwargs, lineno):
+        if fi.qualname == "gemseo.caches.utils.to_real" and _in_cmod(ex):
+            ex.assumed.add("to_real is the identity on real data (complex values: not covered)")
+            return args[0]
+        return NotImplemented
